@@ -230,7 +230,7 @@ pub fn check_on(tier: Tier, only: Option<Vec<Selected>>) -> i32 {
                 if !decl.is_pkt_or_struct() || !crate::front::encodable(&inl, &decl.id) {
                     continue;
                 }
-                let vg = ValueGen { m: &m, budget: if thorough { Budget::thorough() } else { Budget { max_values: 60, pairs: true, nested_alts: 3, max_array_len: 20 } } };
+                let vg = ValueGen { m: &m, budget: if thorough { Budget { max_values: 400, pairs: true, nested_alts: 4, max_array_len: 300 } } else { Budget { max_values: 60, pairs: true, nested_alts: 3, max_array_len: 20 } } };
                 let vals: Vec<Val> = vg.values(&decl.id).ok.into_iter().filter(|v| m.encode(&decl.id, v).is_ok()).collect();
                 build.push((decl.id.clone(), vals));
                 if decl.parent().is_none() && classes::deterministic(&inl, &decl.id).is_ok() && tree_deterministic(&inl, &decl.id) {
